@@ -79,7 +79,7 @@ func init() {
 	add(&Property{
 		ID: "C05", Title: "routine: superseded instances are cancelled; survivor has latest context+state",
 		Sels: []Sel{
-			{Run: "Groutine", Rules: []string{"R4", "R12"}, Contains: []string{"cancel", "derived-context", "current-context", "status-reset", "go-execute", "store-state-before-rebuild", "closure-captures-copy"}},
+			{Run: "Groutine", Rules: []string{"R4", "R12"}, Contains: []string{"cancel", "derived-context", "current-context", "status-reset", "go-execute", "store-state-before-rebuild", "stored-state-reaches-routine", "closure-captures-copy"}},
 			{Run: "Groutine", Rules: []string{"R5b"}},
 			{Run: "R1", Scope: []string{"routine"}, Rules: []string{"R1a"}, Prefixes: []string{"routine."}},
 		},
@@ -133,7 +133,8 @@ func init() {
 		Sels: []Sel{
 			{Run: "R3", Scope: []string{"refcount"}, Prefixes: []string{"refcount."}},
 			{Run: "Grefcount", Rules: []string{"R6a"}},
-			{Run: "Grefcount", Rules: []string{"R12", "R7"}, Contains: []string{"released", "AddRef", "begins-with-shutdown", "generation-bump"}},
+			{Run: "Grefcount", Rules: []string{"R12", "R7"}, Contains: []string{"released", "AddRef", "begins-with-shutdown", "generation-bump", "store-result"}},
+			{Run: "Grefcount", Rules: []string{"R4"}},
 			{Run: "R1", Scope: []string{"refcount", "ccontainer", "promise", "broadcast"}, Rules: []string{"R11"}},
 		},
 		Floors:      map[string]int{"R3a": 2, "R3c": 1, "R6a": 2, "R12": 4},
@@ -147,6 +148,7 @@ func init() {
 		Sels: []Sel{
 			{Run: "Grefcount", Rules: []string{"R12", "R13e"}, Contains: []string{"Access", "Wait", "Resolve/", "ResolveWithReleased", "released"}},
 			{Run: "R2", Scope: []string{"refcount", "broadcast"}, Rules: []string{"R2a", "R2b", "R2c", "R2d"}, Prefixes: []string{"refcount."}},
+			{Run: "R2", Scope: []string{"promise", "broadcast"}, Rules: []string{"R2a", "R2b", "R2c"}, Prefixes: []string{"promise.(*PromiseContainer)"}},
 			{Run: "R17", Scope: []string{"refcount"}, Rules: []string{"R17", "R2f"}, Prefixes: []string{"refcount.(*RefCount).Access"}},
 			{Run: "R1", Scope: []string{"refcount", "promise", "broadcast", "ccontainer"}, Rules: []string{"R1b", "R1c", "R1d"}, Prefixes: []string{"refcount."}},
 		},
@@ -187,6 +189,7 @@ func init() {
 		Sels: []Sel{
 			{Run: "R1", Scope: ConcurrentPkgs, Rules: []string{"R1", "R11a", "R11c"}},
 			{Run: "R1ssa", Scope: ConcurrentPkgs, Rules: []string{"R1ssa"}},
+			{Run: "Gqueue", Rules: []string{"R10"}, Contains: []string{"no-write-after-publish", "link-to-loaded-top", "next-read-before-cas"}},
 		},
 		Floors:      map[string]int{"R1a": 60, "R1b": 12, "R1c": 2, "R1d": 4, "R1a-opt": 1, "R1ssa": 2},
 		Explanation: "Static lockset analysis (R1) over the 14 packages of the concurrency-safe types: for every struct field and every local captured by an escaping closure, all non-construction accesses reached from any entry point hold a common lock, or the variable is never written, atomic, or published by an atomic election followed by a channel close (R1d); callback fields are invoked under their contract lock (R1c); option callbacks run on freshly constructed containers (R1a-opt); every acquired lock is released on every non-panicking path (R11a). Cross-check (R1ssa): every field-access instruction that go/ssa builds for these packages (generic methods and closures included) is matched by an access R1 analysed in some calling context, so the access set the verdict rests on is complete with respect to the compiler's own IR.",
@@ -198,6 +201,7 @@ func init() {
 		ID: "C14", Title: "routine: exit status, restart rules and backoff follow the documented machine",
 		Sels: []Sel{
 			{Run: "Groutine", Rules: []string{"R12", "R5a", "R5b", "R5c"}},
+			{Run: "Gbackoff", Rules: []string{"R12"}},
 			{Run: "R2", Scope: []string{"routine", "broadcast"}, Rules: []string{"R2a", "R2b", "R2c"}, Prefixes: []string{"routine."}},
 			{Run: "R17", Scope: []string{"routine"}, Rules: []string{"R17", "R2f"}},
 		},
